@@ -170,6 +170,9 @@ func Symbolic() bool { return false }
 
 func SetMaxLen(n int)        {}
 func SetLoopBudget(n int)    {}
+
+// SetMaxMaterialise raises the size of the largest slice the engine builds (default 8192 elements).
+func SetMaxMaterialise(n int) {}
 func SetAllocBudget(n int)   {}
 func SetPreempt(n int)       {}
 func CheckPanics(on bool)    {}
